@@ -122,7 +122,10 @@ impl ConcatOps for [Vec<Op>; 3] {
 }
 
 fn run_order(ctx: &mut Ctx, text: &str, want: &[&str], ops: &[Op]) -> Result<(), Fail> {
-    let mut view = SourceView::new(text.into());
+    let mut view = if ops.len() % 2 == 0 { SourceView::new(text.into()) } else { SourceView::from_string(text.to_string()) };
+    if view.source() != text {
+        return Err(("source-accessor".into(), "source() differs from the text the view was created from".into()));
+    }
     for (k, op) in ops.iter().enumerate() {
         match op {
             Op::Line(i) => {
